@@ -97,6 +97,46 @@ CHECKS = {
         "every returned value).",
         "Trusted: Lean kernel; standard axioms; hand-written model of mask/_pan_prefix validated by correspondence.",
         "DESIGN.md §8 C16"),
+    'C06': (
+        "Lean 4 theorem (file round trip for any encoder/decoder pair with a per-message round trip, both formats, by induction over the message list through the C03/C04/C05 theorems) + behavioural correspondence incl. interleaved instances",
+        "Machine-checked proof: for EVERY list of messages whose encodings are non-empty and within the maximum record "
+        "length, and every encoder/decoder pair satisfying dec(enc m) = ok(expected m) (C01's conclusion), IpmReader over "
+        "the IpmWriter output returns exactly the expected messages then end of data, VBS and 1014 (Props/C06.lean). Tied "
+        "to /repo by differential execution over 1..60/300 heterogeneous messages x 3 codecs x 2 formats x packaged/"
+        "generated configurations, and 2-4 interleaved reader/writer instances against the per-instance model.",
+        "Trusted: as C01/C03; instance isolation is established by the correspondence (Python object model), not by a theorem.",
+        "DESIGN.md §8 C06"),
+    'C07': (
+        "Lean 4 theorems (every path of the decoder model ends in ok or the library error, by case analysis over the modelled try/except structure; termination of the PDS and TLV walkers within their fuel; readers end in eof or library error) + behavioural correspondence on mutated inputs under a watchdog",
+        "Machine-checked proof: for EVERY byte string, codec, character-class table, date/DE43 helper behaviour, bitmap "
+        "rendering and every configuration without decimal fields (packaged one checked by decide on the translated "
+        "table), loads returns a dictionary or the library error, the PDS/ICC walkers terminate, VBS/IPM readers over any "
+        "file end in end-of-data or the library error, and the tool wrapper therefore returns normally or with a "
+        "diagnostic (Props/C07.lean). Tied to /repo by ~30k structure-aware mutants, random bytes, mutated files and CLI "
+        "runs, each under a 2 s watchdog, compared with the model and an outcome oracle.",
+        "Trusted: Lean kernel; standard axioms; hand-written model incl. the modelled exception kinds of int(), decode, "
+        "strptime, struct, unhexlify (validated by correspondence); configurations with a decimal field are excluded "
+        "(explicit hypothesis ConfigOK).",
+        "DESIGN.md §8 C07"),
+    'C10': (
+        "Lean 4 theorems (reader over good ++ [bad] ++ rest reports |good|+1 and the raw bytes, by induction over the good prefix, for any decoder; framing-level forms; blocked = payload stream) + behavioural correspondence over n x k x fault kinds",
+        "Machine-checked proof, generic in the message decoder: records 1..k-1 are delivered, then the library error carries "
+        "record number k and the raw bytes of record k including its length prefix (message-level faults), the four "
+        "length bytes (oversized length) or the bytes that could be read (truncated record); blocked files behave as "
+        "their payload stream (Props/C10.lean). Tied to /repo by every k in files of n records x 8 fault kinds x 2 formats "
+        "x 2 codecs, including the operator report text.",
+        "Trusted: as C03/C07.",
+        "DESIGN.md §8 C10"),
+    'C18': (
+        "Lean 4 theorems (two-phase scan = filter/project specification by induction over the rows; column positions; compressed = expanded by list extensionality; refusal cases) + behavioural correspondence on synthetic extract files",
+        "Machine-checked proof: the reader's result is exactly the filterMap of the data records by table id, in file order; "
+        "a matching row yields the timestamp, code and every configured column at its configured positions; positions "
+        "[start-8,end-8) of a compressed row and [start,end) of an expanded row select the same characters; a missing "
+        "trailer or an unconfigured table is the library error (Props/C18.lean). Tied to /repo by synthetic files with "
+        "random indexes, interleaved rows, all configured tables and generated layouts, both representations, 2 codecs, 2 "
+        "formats, CSV output cell by cell.",
+        "Trusted: Lean kernel; standard axioms; hand-written model of IpmParamReader validated by correspondence; csv module.",
+        "DESIGN.md §8 C18"),
 }
 
 
